@@ -3,8 +3,8 @@
 set -u
 PROP=$1; FILE=$2; EXPR=$3
 D=$(mktemp -d /tmp/${PYVC_SCRATCH:-mut}.XXXXXX)
-cp -r /repo/pydsdl $D/
+cp -r ${MUTANT_BASE:-/repo}/pydsdl $D/
 sed -i "$EXPR" $D/pydsdl/$FILE
-if diff -q /repo/pydsdl/$FILE $D/pydsdl/$FILE >/dev/null; then echo "MUTATION DID NOT APPLY"; rm -rf $D; exit 9; fi
+if diff -q ${MUTANT_BASE:-/repo}/pydsdl/$FILE $D/pydsdl/$FILE >/dev/null; then echo "MUTATION DID NOT APPLY"; rm -rf $D; exit 9; fi
 cd "$(dirname "$(readlink -f "$0")")/.." && PYVC_REPO=$D ./check $PROP 2>&1 | grep -v "^WARNING" | grep "VIOLATION\|UNDECIDED\|ENGINE-LIMIT\|BROKEN\|: [0-9]*/[0-9]* obl" | cut -c1-220 | head -${4:-6}
 rm -rf $D
